@@ -100,6 +100,48 @@ def strict_eq_literal(n, consts=None):
 def _normalise_js(program):
     """`const c = <condition>; if (c) {..}` - a name computed for the very next `if` and used nowhere else - is
     that `if`'s condition (the JS side of the normaliser in engine._normalise)"""
+    # a module-level string constant written by derivation - a template literal (or a `+`) over string
+    # literals and earlier module-level string constants - is that string
+    top = program.get("body") if isinstance(program.get("body"), list) else (program.get("program") or {}).get("body") or []
+    consts = {}
+
+    def const_str(e):
+        t = (e or {}).get("type")
+        if t == "StringLiteral":
+            return e["value"]
+        if t == "Identifier":
+            return consts.get(e.get("value"))
+        if t == "ParenthesisExpression":
+            return const_str(e["expression"])
+        if t == "TemplateLiteral":
+            parts = []
+            for i, q in enumerate(e.get("quasis") or []):
+                if q.get("cooked") is None:
+                    return None
+                parts.append(q["cooked"])
+                if i < len(e.get("expressions") or []):
+                    v = const_str(e["expressions"][i])
+                    if v is None:
+                        return None
+                    parts.append(v)
+            return "".join(parts)
+        if t == "BinaryExpression" and e.get("operator") == "+":
+            a, b = const_str(e["left"]), const_str(e["right"])
+            return a + b if a is not None and b is not None else None
+        return None
+
+    for st in top:
+        if not (isinstance(st, dict) and st.get("type") == "VariableDeclaration" and st.get("kind") == "const"):
+            continue
+        for d in st.get("declarations") or []:
+            if (d.get("id") or {}).get("type") != "Identifier" or not d.get("init"):
+                continue
+            v = const_str(d["init"])
+            if v is None:
+                continue
+            consts[d["id"]["value"]] = v
+            if d["init"].get("type") != "StringLiteral":
+                d["init"] = {"type": "StringLiteral", "value": v, "raw": repr(v), "span": d["init"].get("span"), "derived": True}
     for n in list(walk(program)):
         for key in ("body", "stmts"):
             lst = n.get(key)
